@@ -177,6 +177,11 @@ def check_repo(ctx, rng, nqueries):
             popped = [c for c in cwd_rel.split('/') if c]
             from_root = [os.path.normpath(os.path.join(cwd_rel, p)) for p in paths] if paths else None
             exp_pairs, entries = expected(repo, base, remote, from_root)
+            if remote == 'WORKTREE' and any(e['status'] == 'D' and os.path.exists(os.path.join(repo.root, *e['b'])) for e in entries):
+                # an untracked file sits at a path git reports as deleted: which content is 'the working tree side' is
+                # not defined by the property; such states are counted and skipped
+                ctx.count('skipped:untracked-file-at-deleted-path')
+                continue
             data = {'log': log, 'kind': kind, 'base': base, 'remote': remote, 'cwd': cwd_rel, 'paths': paths,
                     'entries': [{k: v for k, v in e.items() if k in ('a', 'b', 'status')} for e in entries]}
             ctx.count('refs:' + kind)
